@@ -211,7 +211,11 @@ def obligations(ctx: Ctx):
     try:
         from props import C09_b
 
+        obs.append(Ob(f"{P}.B2", "B", "schema with FRONTMATTER requirements: x, canonical(x), canonical(canonical(x)) get the same status and (code, field) set", VAL + ["octave_mcp.mcp.validate:ValidateTool.execute", "octave_mcp.core.emitter:emit"], C09_b.ob_b2, timeout=3000))
         obs.append(Ob(f"{P}.B1", "B", "schema x instance x respellings x profiles: same status and (code, field) set; fix off: canonical == emit(parse); twice == once", VAL + ["octave_mcp.mcp.validate:ValidateTool.execute"], C09_b.ob_b1, timeout=3000))
     except ImportError:
         pass
+    from props import lexical as _LX
+
+    obs += _LX.emit_layout_obs(P)
     return obs
